@@ -30,6 +30,8 @@ type Runner struct {
 	M  *Model
 	// invN counts the reads of the invariant (selects their conditional headers)
 	invN int
+	// cvN counts the versions CheckVersions has read (every other one conditionally)
+	cvN int
 	// Addr maps (bucket, rest-of-path) to the Host and path actually sent; nil =
 	// path-style on the default host. Used by C16.
 	Addr func(bucket, rest string) (host, path string)
@@ -769,9 +771,24 @@ func (r *Runner) CheckVersions(b string) []Disc {
 			if e.Marker || e.Null || e.ID == "" || strings.HasPrefix(e.ID, "?") {
 				continue
 			}
+			r.cvN++
 			for _, method := range []string{"GET", "HEAD"} {
-				resp := r.do(r.req(method, b, k, s3x.Q("versionId", e.ID), nil, nil))
+				// every other version is read with the ETag of a different version of the key (the
+				// newest one with other bytes) as If-None-Match: the addressed version does not match
+				// it, so the read is answered like a plain one
+				var cond [][2]string
 				what := fmt.Sprintf("%s %s/%s?versionId=%s", method, b, k, e.ID)
+				if r.cvN%2 == 0 {
+					ents := mb.Keys[k].Entries
+					for i := len(ents) - 1; i >= 0; i-- {
+						if o := ents[i]; o != e && !o.Marker && ETag(o.Body) != ETag(e.Body) {
+							cond = s3x.H("If-None-Match", ETag(o.Body))
+							what += " (If-None-Match of another version's bytes)"
+							break
+						}
+					}
+				}
+				resp := r.do(r.req(method, b, k, s3x.Q("versionId", e.ID), cond, nil))
 				if d := expectStatus(resp, 200, "version must stay retrievable: "+what); d != nil {
 					d[0].Kind = "version-lost:" + d[0].Kind
 					ds = append(ds, d...)
